@@ -37,6 +37,7 @@ def gen(rng):
     flt = rng.choice([0, 0, 1])
     rec = rng.choice(["none", "none", "live", "stream"])
     obs = 1 if rng.random() < 0.35 else 0
+    sf = 1 if rng.random() < 0.3 else 0
 
     def ops(n, adv=True, clear=0.02):
         out = []
@@ -59,21 +60,21 @@ def gen(rng):
         gates.append(ops(rng.choice([1, 1, 2, 3])) if rng.random() < busy else [])
     off = ops(rng.choice([0, 1, 2, 4, 7])) if rec != "none" else []
     live = ops(rng.choice([0, 1, 2, 4]), clear=0.04)
-    return fmt(dict(size=size, sttl=sttl, kttl=kttl, page=page, slim=slim, tlim=tlim, cto=cto, flt=flt, rec=rec, obs=obs,
+    return fmt(dict(size=size, sttl=sttl, kttl=kttl, page=page, slim=slim, tlim=tlim, cto=cto, flt=flt, rec=rec, obs=obs, sf=sf,
                     g=gates, off=off, live=live))
 
 
 def fmt(sc):
     g = "/".join(",".join(x) if x else "-" for x in sc["g"]) or "-"
     return (f"sc size={sc['size']} sttl={sc['sttl']} kttl={sc['kttl']} page={sc['page']} slim={sc['slim']} tlim={sc['tlim']} "
-            f"cto={sc['cto']} flt={sc['flt']} obs={sc.get('obs', 0)} rec={sc['rec']} g={g} off={','.join(sc['off']) or '-'} live={','.join(sc['live']) or '-'}")
+            f"cto={sc['cto']} flt={sc['flt']} obs={sc.get('obs', 0)} sf={sc.get('sf', 0)} rec={sc['rec']} g={g} off={','.join(sc['off']) or '-'} live={','.join(sc['live']) or '-'}")
 
 
 def parse(op):
     kv = dict(w.split("=", 1) for w in op.split()[1:])
     lst = lambda s: [] if s in ("-", "") else s.split(",")
     return dict(size=int(kv["size"]), sttl=int(kv["sttl"]), kttl=int(kv["kttl"]), page=int(kv["page"]), slim=int(kv["slim"]),
-                tlim=int(kv["tlim"]), cto=int(kv.get("cto", "0")), flt=int(kv["flt"]), rec=kv["rec"], obs=int(kv.get("obs", "0")),
+                tlim=int(kv["tlim"]), cto=int(kv.get("cto", "0")), flt=int(kv["flt"]), rec=kv["rec"], obs=int(kv.get("obs", "0")), sf=int(kv.get("sf", "0")),
                 g=[lst(x) for x in kv["g"].split("/")] if kv["g"] != "-" else [], off=lst(kv["off"]), live=lst(kv["live"]))
 
 
@@ -238,7 +239,7 @@ def oracle(op, out):
             viol.append((f"client map differs from the broker state 100 s after traffic stopped and the client was never told",
                          {"kind": "diverged", "cause": cause}))
     # additional live subscribers with other tags filters: each must hold the broker state restricted to its own filter
-    for name in ("o1", "o2", "o3"):
+    for name in sorted(k for k in fk if re.match(r"^o\d+$", k)):
         if fk.get(name, "ok").startswith("bad"):
             viol.append((f"live subscriber {name} (own tags filter) ended with map/broker-state-under-its-filter {fk[name]} and was never told",
                          {"kind": "observer-diverged"}))
@@ -389,6 +390,7 @@ def run(ctx):
         ctx.record(op, nontrivial=nw > 0)
         ctx.count("rec:" + sc["rec"])
         ctx.count("observers:" + str(sc["obs"]))
+        ctx.count("singleflight-twins:" + str(sc["sf"]))
         v = oracle(op, out)
         if v is None:
             herr += 1
